@@ -161,6 +161,8 @@ RoutedByTag(T) ==
   \A x \in AllPieces(T) :
      LET pc == T.map[x[1]].pieces[x[2]]  hits == CoreHits(T, outL, pc) IN
      (Core(T, pc) # <<>>) => (Cardinality(hits) = 1 /\ T.out[(CHOOSE h \in hits : TRUE)[1]].asm_lc = PieceDest(T, x[1], x[2]))
+\* "that haplotype's assembly": haplotype names are compared case-insensitively, so no two output assemblies may differ in letter case only
+OneAssemblyPerHaplotype(T) == \A o1, o2 \in 1..Len(T.out) : T.out[o1].asm_lc = T.out[o2].asm_lc => T.out[o1].asm = T.out[o2].asm
 \* sequence absent from the map: contaminant once a Target tag exists anywhere, otherwise the assembly of its name's haplotype
 AbsentScaffolds(T) == {s \in 1..Len(T.input) : \A x \in AllPieces(T) : T.map[x[1]].pieces[x[2]].src # T.input[s].name}
 AbsentRouted(T) ==
